@@ -114,46 +114,24 @@ func init() {
 							return true
 						})
 					case "readLine":
-						ast.Inspect(d.Body, func(n ast.Node) bool {
-							ifs, ok := n.(*ast.IfStmt)
-							if !ok {
-								return true
-							}
-							var collect func(e ast.Expr) bool
-							collect = func(e ast.Expr) bool {
-								be, ok := e.(*ast.BinaryExpr)
-								if !ok {
-									return false
-								}
-								if be.Op == token.LOR {
-									return collect(be.X) && collect(be.Y)
-								}
-								if be.Op == token.EQL {
-									if id, ok := be.X.(*ast.Ident); ok && id.Name == "b" {
-										if v, ok := charLitValue(be.Y); ok {
-											breaks = append(breaks, strconv.Itoa(v))
-											return true
+						// the stop bytes of the translated byte loop (extract_readline.go)
+						if d.Recv != nil {
+							for _, cl := range readLineClauses(fset, d) {
+								if strings.HasPrefix(cl, ".onByteStop [") {
+									for _, x := range strings.Split(strings.TrimSuffix(strings.TrimPrefix(cl, ".onByteStop ["), "]"), ", ") {
+										if x != "" {
+											breaks = append(breaks, x)
 										}
 									}
 								}
-								return false
 							}
-							saved := breaks
-							if !collect(ifs.Cond) || len(ifs.Body.List) != 1 {
-								breaks = saved
-								return true
-							}
-							if br, ok := ifs.Body.List[0].(*ast.BranchStmt); !ok || br.Tok != token.BREAK {
-								breaks = saved
-							}
-							return true
-						})
+						}
 					}
 				}
 			}
 		}
 		fmt.Fprintf(&b, "/-- trimNodeValue replaces the value by strings.TrimSpace of it -/\ndef trimUsesTrimSpace : Bool := %v\n", trimUses)
-		fmt.Fprintf(&b, "/-- the bytes at which readLine ends a line (`if b == … || b == … { break }`) -/\ndef readLineBreaks : List UInt8 := [%s]\n", strings.Join(breaks, ", "))
+		fmt.Fprintf(&b, "/-- the bytes at which readLine ends a line (the stop clause of `readLineProgram`) -/\ndef readLineBreaks : List UInt8 := [%s]\n", strings.Join(breaks, ", "))
 		fmt.Fprintf(&b, "/-- `byteOrderMark` -/\ndef bomBytes : List UInt8 := [%s]\n", strings.Join(bom, ", "))
 		b.WriteString("\nend Gedcom.Generated\n")
 		return b.String()
